@@ -203,7 +203,8 @@ def vector_family(kind, T, P):
 def mk_orient(vectors):
     from gemdat.orientations import Orientations
 
-    M = np.eye(3) * 9.0
+    # a triclinic, rotated cell: operations on vectors are Cartesian and must not depend on the cell
+    M = geom.from_parameters(9, 11, 13, 70, 80, 100) @ geom.rotation((20, 50, 80)).T
     traj = concretise.make_trajectory(np.zeros((1, 2, 3)) + [[0.1, 0.1, 0.1], [0.2, 0.2, 0.2]], ['S', 'O'], M)
     return Orientations(traj, 'S', 'O', in_vectors=np.asarray(vectors, dtype=float))
 
